@@ -67,18 +67,21 @@ where
                 step!(st, outs, 1, "saturating", res(F::saturating_from_str_binary(s)));
                 step!(st, outs, 2, "wrapping", res(F::wrapping_from_str_binary(s)));
                 step!(st, outs, 3, "overflowing", resf(F::overflowing_from_str_binary(s)));
+                step!(st, outs, 4, "Wrapping::from_str_radix", res(Wrapping::<F>::from_str_binary(s).map(|w| w.0)));
             }
             8 => {
                 step!(st, outs, 0, "plain", res(F::from_str_octal(s)));
                 step!(st, outs, 1, "saturating", res(F::saturating_from_str_octal(s)));
                 step!(st, outs, 2, "wrapping", res(F::wrapping_from_str_octal(s)));
                 step!(st, outs, 3, "overflowing", resf(F::overflowing_from_str_octal(s)));
+                step!(st, outs, 4, "Wrapping::from_str_radix", res(Wrapping::<F>::from_str_octal(s).map(|w| w.0)));
             }
             16 => {
                 step!(st, outs, 0, "plain", res(F::from_str_hex(s)));
                 step!(st, outs, 1, "saturating", res(F::saturating_from_str_hex(s)));
                 step!(st, outs, 2, "wrapping", res(F::wrapping_from_str_hex(s)));
                 step!(st, outs, 3, "overflowing", resf(F::overflowing_from_str_hex(s)));
+                step!(st, outs, 4, "Wrapping::from_str_radix", res(Wrapping::<F>::from_str_hex(s).map(|w| w.0)));
             }
             _ => {
                 step!(st, outs, 0, "plain", res(F::from_str(s)));
@@ -86,6 +89,9 @@ where
                 step!(st, outs, 2, "wrapping", res(F::wrapping_from_str(s)));
                 step!(st, outs, 3, "overflowing", resf(F::overflowing_from_str(s)));
                 step!(st, outs, 4, "parse()", res(s.parse::<F>()));
+                // the wrapping form reached through `Wrapping<F>`'s own `FromStr` impl
+                step!(st, outs, 5, "Wrapping.parse()", res(s.parse::<Wrapping<F>>().map(|w| w.0)));
+                step!(st, outs, 6, "Wrapping::from_str", res(<Wrapping<F> as core::str::FromStr>::from_str(s).map(|w| w.0)));
             }
         },
         FMT => {
